@@ -538,8 +538,38 @@ Qed.
 (* ------------------------------------------------------------------------------------------ *)
 (** * Facts about the source *)
 
+(* the code points below 128 that satisfy a predicate, ascending: the shape in which Gen.Facts states the
+   character set of a compiled regular expression *)
+Definition chars_of (p : Z -> bool) : list Z := filter p (map Z.of_nat (seq 0 128)).
+
+Lemma in_chars_of (p : Z -> bool) c :
+  (p c = true -> 0 <= c < 128) -> (In c (chars_of p) <-> p c = true).
+Proof.
+  intros Hb; unfold chars_of; rewrite filter_In; split; [tauto|].
+  intros Hp; split; [|exact Hp].
+  apply in_map_iff; exists (Z.to_nat c); split; [apply Z2Nat.id; apply Hb in Hp; lia|].
+  apply in_seq; apply Hb in Hp; lia.
+Qed.
+
+Lemma key_char_bound c : key_char c = true -> 0 <= c < 128.
+Proof. unfold key_char, in_range; intros H; lia. Qed.
+
+Lemma value_char_bound c : value_char c = true -> 0 <= c < 128.
+Proof. unfold value_char, in_range; intros H; lia. Qed.
+
+(* _KEY_RE and _VALUE_RE, as compiled and as used in the source (whole-string match, mode 0), are "one or
+   more characters of the set", and the set is exactly the model's predicate; the reserved names the property
+   lists are in _SPECIAL *)
 Lemma source_facts :
-  key_re_src = s2z "^[0-9a-z_.\-]+$" /\ value_re_src = s2z "^[ !-~]+$" /\
+  key_re_sem = ([(chars_of key_char, 1, -1)], 0, []) /\
+  value_re_sem = ([(chars_of value_char, 1, -1)], 0, []) /\
+  (forall c, In c (chars_of key_char) <-> key_char c = true) /\
+  (forall c, In c (chars_of value_char) <-> value_char c = true) /\
   mem_str (s2z "te") special = true /\ mem_str (s2z "content-type") special = true /\
   mem_str (s2z "user-agent") special = true.
-Proof. repeat split; vm_compute; reflexivity. Qed.
+Proof.
+  split; [vm_compute; reflexivity|]. split; [vm_compute; reflexivity|].
+  split; [intros c; apply in_chars_of, key_char_bound|].
+  split; [intros c; apply in_chars_of, value_char_bound|].
+  repeat split; vm_compute; reflexivity.
+Qed.
